@@ -205,6 +205,13 @@ type Burst struct {
 	Deviated  int // deviations taken so far
 	// NoSelect / NoSched switch one of the two dimensions off.
 	NoSelect, NoSched bool
+	// Sync, when non-zero, adds a third dimension: one preemption at a
+	// synchronisation point of the step (classes verifdetrt.SyncMutex /
+	// SyncSpawn / SyncChan) - the window between two statements that do
+	// not block, which no order of stimuli and no delay produces.
+	Sync       uint32
+	syncHandle int
+	SyncPoints int // points seen so far
 }
 
 // NewBurst returns nil unless the determinised runtime is linked in.
@@ -212,7 +219,7 @@ func NewBurst(c LateChooser) *Burst {
 	if !verifdetrt.On {
 		return nil
 	}
-	return &Burst{c: c, handle: -1, selHandle: -1}
+	return &Burst{c: c, handle: -1, selHandle: -1, syncHandle: -1}
 }
 
 // Begin is called right before the stimulus of a step is applied. It returns
@@ -221,12 +228,22 @@ func (b *Burst) Begin() string {
 	if b == nil {
 		return ""
 	}
-	if b.handle >= 0 || b.selHandle >= 0 {
+	if b.handle >= 0 || b.selHandle >= 0 || b.syncHandle >= 0 {
 		b.End()
 	}
 	desc := ""
 	verifdetrt.SetDelay(0, false)
 	verifdetrt.SetSelect(0)
+	verifdetrt.SetSync(0, 0)
+	if b.Sync != 0 {
+		d, hd := b.c.ChooseLate("preemption at a synchronisation point in this step")
+		b.syncHandle = hd
+		if d > 0 {
+			b.Deviated++
+			desc += fmt.Sprintf(" [the goroutine running at synchronisation point %d of this step (go statement, mutex or channel operation with another goroutine runnable) is preempted there]", d)
+		}
+		verifdetrt.SetSync(d, b.Sync)
+	}
 	if !b.NoSched {
 		d, hd := b.c.ChooseLate("scheduler deviation in this step")
 		b.handle = hd
@@ -259,9 +276,15 @@ func (b *Burst) End() {
 	if b == nil {
 		return
 	}
-	n, m := verifdetrt.DelayCount(), verifdetrt.SelectCount()
+	n, m, k := verifdetrt.DelayCount(), verifdetrt.SelectCount(), verifdetrt.SyncCount()
 	verifdetrt.SetDelay(0, false)
 	verifdetrt.SetSelect(0)
+	verifdetrt.SetSync(0, 0)
+	if h := b.syncHandle; h >= 0 {
+		b.syncHandle = -1
+		b.SyncPoints += k
+		b.c.FixLate(h, k+1)
+	}
 	if h := b.handle; h >= 0 {
 		b.handle = -1
 		b.Decisions += n
@@ -279,7 +302,8 @@ func (b *Burst) Off() {
 	if b != nil {
 		verifdetrt.SetDelay(0, false)
 		verifdetrt.SetSelect(0)
-		b.handle, b.selHandle = -1, -1
+		verifdetrt.SetSync(0, 0)
+		b.handle, b.selHandle, b.syncHandle = -1, -1, -1
 	}
 }
 
